@@ -26,6 +26,7 @@ MAP = [  # (substring of the commit subject, property)
  ("empty or immediately failing generator result", "C13"), ("request size limit was only enforced", "C13"),
  ("WSDL error responses had a str body", "C13"),
  ("xsi:type could substitute a value of any registered class", "C04"),
+ ("xsi:type derivation check accepted", "C04"),
  ("document nodes of the wrong kind escaped", "C04"), ("MessagePack handed booleans, maps and lists", "C04"),
  ("malformed base64 or hex text raised binascii.Error", "C10"),
  ("numbers 0 and 1 were accepted for Boolean", "C04"), ("msgpack-rpc message whose type field is a sequence", "C10"),
